@@ -38,6 +38,9 @@ def parse : List String → Option Op
   | ["absorb", x] => (fromHex x).map .absorb
   | ["enc", x] => (fromHex x).map .encrypt
   | ["dec", x] => (fromHex x).map .decrypt
+  -- the same calls with output and input in one buffer (values cannot alias: the same operations)
+  | ["enci", x] => (fromHex x).map .encrypt
+  | ["deci", x] => (fromHex x).map .decrypt
   | ["sq", n] => n.toNat?.map .squeeze
   | ["sqk", n] => n.toNat?.map .squeezeKey
   | ["ratchet"] => some .ratchet
